@@ -24,6 +24,8 @@ def generator_rows(P, cl, which):
 
 def run(chk, ctx):
     P = Prog(ctx["facts"])
+    from .iter_rules import signal_api_rule
+    signal_api_rule(chk, P)   # what an input / output / bidirectional signal with a default *is*
     from .iter_rules import plumbing_rule
     plumbing_rule(chk, P, {"ParsedTestCase": ("signals",), "TestCase": ("signals", "input_indices", "expected_indices"), "DataRowIteratorTestData": ("signals", "input_indices", "expected_indices")})   # what the parser / the binding produced is what runs
     popped_row_untouched_rule(chk, P)
